@@ -13,6 +13,7 @@ not compile -> every property whose cone contains the bridge reports the obligat
 
 Modelling assumptions the translator makes are printed into the generated file (section `assumptions`)."""
 import ast
+import re
 
 import pynorm
 from gen_kernels import KernelError, find_class
@@ -254,8 +255,39 @@ class NodeTr:
             return "(truthy_optmd %s)" % term
         self.err("truthiness of a %s" % (ty,), node)
 
+    # ---- tests already decided on the current path ------------------------------------------------------------------
+    # Inside the branches of `if c:` the value of the Coq term c is known.  Terms are over bound variables (every read of
+    # the state binds a fresh one) and `let`-bound locals, so a fact stays true as long as no local in it is rebound
+    # (drop_facts).  A later test that is the same term is then a constant: `if a and b: P elif a: Q` with b constant
+    # True makes Q dead code exactly as the nested form `if a: if b: P else: Q` does.
+    def with_fact(self, env, c, value):
+        if c in ("true", "false"):
+            return env
+        env = dict(env)
+        facts = dict(env.get("?facts", ({}, "facts"))[0])
+        while c.startswith("(negb ") and c.endswith(")"):
+            c, value = c[6:-1], not value
+        facts[c] = value
+        env["?facts"] = (facts, "facts")
+        return env
+
+    def drop_facts(self, env, name):
+        if "?facts" in env:
+            pat = re.compile(r"(?<![A-Za-z0-9_'])%s(?![A-Za-z0-9_'])" % re.escape(name))
+            env["?facts"] = ({c: v for c, v in env["?facts"][0].items() if not pat.search(c)}, "facts")
+
     def cond(self, e, env, binds):
-        """expression in boolean context -> coq bool term"""
+        """expression in boolean context -> coq bool term (a constant when the path has decided it)"""
+        c = self.cond0(e, env, binds)
+        facts = env.get("?facts", ({}, "facts"))[0]
+        neg, core = False, c
+        while core.startswith("(negb ") and core.endswith(")"):
+            neg, core = not neg, core[6:-1]
+        if core in facts:
+            return "true" if facts[core] != neg else "false"
+        return c
+
+    def cond0(self, e, env, binds):
         if isinstance(e, ast.BoolOp):
             op = "&&" if isinstance(e.op, ast.And) else "||"
             parts = []
@@ -424,8 +456,8 @@ class NodeTr:
         if c in ("true", "false"):
             return self.ex(e.body if c == "true" else e.orelse, self.narrow(e.test, env, c == "true"), binds)
         b1, b2 = [], []
-        t1, ty1 = self.ex(e.body, self.narrow(e.test, env, True), b1)
-        t2, ty2 = self.ex(e.orelse, self.narrow(e.test, env, False), b2)
+        t1, ty1 = self.ex(e.body, self.with_fact(self.narrow(e.test, env, True), c, True), b1)
+        t2, ty2 = self.ex(e.orelse, self.with_fact(self.narrow(e.test, env, False), c, False), b2)
         ty = self.join_ty(ty1, ty2, e)
         if isinstance(ty, tuple) and ty[0] in ("alias", "iter"):
             self.err("conditional expression over a %s" % (ty,), e)
@@ -872,8 +904,10 @@ class NodeTr:
             var = self.local(s.target.id)
             benv = dict(env)
             benv[s.target.id] = (var, elem)
+            self.drop_facts(benv, var)
             for n in carried:
                 benv[n] = (self.local(n), env[n][1])
+                self.drop_facts(benv, self.local(n))
             tys = {n: env[n][1] for n in carried}
 
             def tail(e, carried=carried, tys=tys):
@@ -895,6 +929,7 @@ class NodeTr:
                 out.append("%slet %s%s := %s in" % (ind, "'" if len(carried) > 1 else "", pat, st))
             for n in carried:
                 env[n] = (self.local(n), tys[n])
+                self.drop_facts(env, self.local(n))
             env[s.iter.id] = ("[]", ity)
             for n in assigned:
                 if n not in carried and n != s.target.id and n in env and env[n][1] not in ("aw", "nil", "unit"):
@@ -951,6 +986,8 @@ class NodeTr:
                 if names[0] == names[1]:
                     names[0] = self.fresh("t")
                 out.append("%slet '(%s, %s) := %s in" % (ind, names[0], names[1], p))
+                for c1 in names:
+                    self.drop_facts(env, c1)
                 for t1, c1 in zip(tgt.elts, names):
                     out += self.assign_to(t1, c1, "val", env, ind, s)
                 return out + self.go(rest, env, ind)
@@ -1003,6 +1040,7 @@ class NodeTr:
                 env[tgt.id] = (term, ty)
                 return []
             env[tgt.id] = (c, ty)
+            self.drop_facts(env, c)
             return ["%slet %s := %s in" % (ind, c, term)]
         name = self.self_attr(tgt)
         if name is not None:
@@ -1103,11 +1141,11 @@ class NodeTr:
             lines, env2 = seq
             return out + lines + self.go(rest, env2, ind)
         out.append("%sif %s then (" % (ind, c))
-        out += self.go(list(s.body) + rest, self.narrow(s.test, env, True), ind + "  ")
+        out += self.go(list(s.body) + rest, self.with_fact(self.narrow(s.test, env, True), c, True), ind + "  ")
         out.append("%s) else (" % ind)
         if s.orelse:
             out.append("%s  (* else: *)" % ind)
-        out += self.go(list(s.orelse) + rest, self.narrow(s.test, env, False), ind + "  ")
+        out += self.go(list(s.orelse) + rest, self.with_fact(self.narrow(s.test, env, False), c, False), ind + "  ")
         out.append("%s)" % ind)
         return out
 
@@ -1123,8 +1161,8 @@ class NodeTr:
             return "ret tt"
         self.tails.append(tail)
         try:
-            b1 = self.go(list(s.body), self.narrow(s.test, env, True), ind + "    ")
-            b2 = self.go(list(s.orelse), self.narrow(s.test, env, False), ind + "    ")
+            b1 = self.go(list(s.body), self.with_fact(self.narrow(s.test, env, True), c, True), ind + "    ")
+            b2 = self.go(list(s.orelse), self.with_fact(self.narrow(s.test, env, False), c, False), ind + "    ")
         finally:
             self.tails.pop()
         env2 = dict(env)
@@ -1134,7 +1172,7 @@ class NodeTr:
                 if n in e and e[n][1] not in ("aw", "nil", "unit"):
                     return None              # a data local is (re)bound in a branch: duplicate the continuation instead
             for k, v in e.items():
-                if k.startswith("self."):
+                if k.startswith("self.") or k.startswith("?"):
                     continue
                 if v[1] in ("aw", "nil", "unit"):
                     if k in env2 and env2[k][1] not in ("aw", "nil", "unit") and env2[k][0] != "VNone":
@@ -1252,9 +1290,9 @@ class NodeTr:
             c = self.cond(s.test, env, binds)
             t1 = t2 = None
             if c != "false":
-                t1, ty1 = self.mbody(list(s.body) + stmts[1:], self.narrow(s.test, env, True), fn)
+                t1, ty1 = self.mbody(list(s.body) + stmts[1:], self.with_fact(self.narrow(s.test, env, True), c, True), fn)
             if c != "true":
-                t2, ty2 = self.mbody(list(s.orelse) + stmts[1:], self.narrow(s.test, env, False), fn)
+                t2, ty2 = self.mbody(list(s.orelse) + stmts[1:], self.with_fact(self.narrow(s.test, env, False), c, False), fn)
             pre = " ".join("do %s <- %s ;;" % (b.var, b.term) for b in binds)
             if c == "true":
                 return "(%s %s)" % (pre, t1), ty1
